@@ -124,6 +124,10 @@ namespace occa {
         // __VA_ARGS__
         const int realArgc = (int) args.size();
         for (int i = argc; i < realArgc; ++i) {
+          if (i > argc) {
+            // The commas between the variadic arguments are part of __VA_ARGS__
+            newTokens.push_back(new operatorToken(source->origin, op::comma));
+          }
           expandArg(newTokens, source, args, i);
         }
       }
